@@ -273,6 +273,29 @@ def subsetComposite (flags : Nat) (gmap : Nat → Option Nat) (d : Bytes) : Byte
       out.take (i + 2 + u16At out i)
     else out.take i
 
+/-- byte length of the component record whose (truncated) flag word is `f` -/
+def compRecSize (f : Nat) : Nat :=
+  4 + (if f &&& 0x0001 != 0 then 4 else 2) +
+  (if f &&& 0x0008 != 0 then 2 else if f &&& 0x0040 != 0 then 4 else if f &&& 0x0080 != 0 then 8 else 0)
+
+/-- read-fonts `ComponentIter::next` (tables/glyf.rs) over a whole glyph record `d` (component data
+starts at 10): a component is yielded only if its whole record (flags, glyph, arguments, transform)
+lies inside the data; the iteration ends after a record without MORE_COMPONENTS or at the first
+record that does not fit. -/
+def compIterGo (d : Bytes) : Nat → Nat → List Nat
+  | 0, _ => []
+  | fuel + 1, i =>
+    let f := u16At d i &&& COMPOSITE_KNOWN_BITS
+    if i + compRecSize f > d.length then [] else
+    u16At d (i + 2) :: (if f &&& 0x0020 != 0 then compIterGo d fuel (i + compRecSize f) else [])
+
+/-- `loca.get_glyf(gid, glyf).ok().flatten()` is `Glyph::Composite` ⇒ its `components()` glyph ids;
+otherwise (simple glyph, empty slot, read error) no components.  This is what `glyf_closure_glyphs`
+iterates. -/
+def componentsOfRecord (d : Bytes) : List Nat :=
+  if d.length < 10 then [] else
+  if u16At d 0 < 32768 then [] else compIterGo d (d.length + 1) 10
+
 /-- `Glyph::read(FontData::new(d))` followed by `subset_glyph` (verif hook `subset_glyph_bytes`) -/
 def subsetGlyphBytes (flags : Nat) (gmap : Nat → Option Nat) (d : Bytes) : GlyphRes :=
   if d.length < 2 then .readErr else
